@@ -1,6 +1,6 @@
 """C20 - compilation is total: TEAL or a PyTeal error, never a crash; acceptable programs are accepted.
 
-spec -> code: programs are the behaviours of spec/Builder.tla (every finished behaviour is well typed by
+spec -> code: programs are the behaviours of spec/Gen.tla (every finished behaviour is well typed by
 construction) over the C01 alphabets, a degenerate-shape alphabet (loops first, bodies of only Break/Continue,
 empty Seqs, uninitialised variables) and a routine alphabet, plus size-parametrised long/deep programs.
 code -> spec: each is compiled by the real PyTeal for versions 2..10 x {Application, Signature} x option
@@ -62,7 +62,7 @@ def main():
     chk.cov["evaluations"] = sum(len(e["outs"]) for e in entries)
     chk.cov["distinct_nontrivial"] = len(shapes)
     chk.notes.update({"recipes": len(progs), "compiled_to_teal": nteal, "rejected_with_pyteal_error": nerr,
-                      "rule": "programs = finished behaviours of spec/Builder.tla (BFS per alphabet, sampled to a cap) plus "
+                      "rule": "programs = finished behaviours of spec/Gen.tla (BFS per alphabet, sampled to a cap) plus "
                               "size-parametrised long/deep shapes; every (program, version, mode, options) compilation is one "
                               "evaluation; non-trivial = distinct program shape that compiled to TEAL under some setting"})
     chk.assumptions += ["Accepts.tla's version/mode table (conservative: unknown constructs are never predicted accepted)",
